@@ -1,15 +1,16 @@
 ----------------------------- MODULE Trace_Store -----------------------------
 (* Trace validation of PandasStore.save / compute_aggregate / cf_safe_name. *)
-(*   save    [table, config, names, opts, frame, exc, rollup, first]        *)
-(*   agg     [exc]             compute_aggregate on the same store object   *)
+(*   save    [table, config, names, opts, frame, exc, rollups, first]       *)
+(*           rollups: the roll-up columns found in the frame [name, vals]   *)
+(*   agg     [name, exc]       compute_aggregate(name) on the same object   *)
 (* Events of one store object follow each other; "first" marks a new one.   *)
 (*   cfsafe  [raw (chars), out (chars), exc]                                *)
 EXTENDS Store, Json, IOUtils, TLCExt
 
 TraceLog == ndJsonDeserialize(IOEnv.TRACE_FILE)
-VARIABLES l, aggd, seen      \* aggd: compute_aggregate was called on this store; seen: its earlier saves
+VARIABLES l, aggd, seen      \* aggd: the roll-up names given to compute_aggregate on this store; seen: its earlier saves
 Clause(e, name, ok) == IF ok THEN TRUE ELSE PrintT(<<"REJECT", e.id, name>>)
-TraceInit == l = 1 /\ aggd = FALSE /\ seen = {}
+TraceInit == l = 1 /\ aggd = {} /\ seen = {}
 
 SaveE(e, ag, sn) ==
     LET ok == FrameOK(e.frame, e.table, e.config, e.names, e.opts) IN
@@ -21,22 +22,22 @@ SaveE(e, ag, sn) ==
     /\ Clause(e, "c19_axes", e.exc = "" => ok.axes)
     /\ Clause(e, "c19_data", e.exc = "" => ok.data)
     /\ Clause(e, "c19_rollup", (e.exc = "" /\ NoFilters(e.opts)) =>
-                 RollupOK(e.rollup, e.table, e.config, e.names, ag))
+                 RollupsOK(e.rollups, e.table, e.config, e.names, ag))
     \* the same options on the same store in the same state give the same frame (save is a pure observation)
     /\ Clause(e, "c19_again", e.exc = "" => \A s \in sn : (s.opts = e.opts /\ s.aggd = ag) =>
-                                                          (s.frame = e.frame /\ s.rollup = e.rollup))
+                                                          (s.frame = e.frame /\ s.rollups = e.rollups))
 
 Step ==
     /\ l <= Len(TraceLog)
     /\ LET e == TraceLog[l] IN
-       /\ CASE e.ev = "save"   -> LET ag == IF e.first THEN FALSE ELSE aggd
+       /\ CASE e.ev = "save"   -> LET ag == IF e.first THEN {} ELSE aggd
                                        sn == IF e.first THEN {} ELSE seen IN
                                    /\ SaveE(e, ag, sn)
                                    /\ aggd' = ag
                                    /\ seen' = IF e.exc = "" THEN sn \cup {[opts |-> e.opts, aggd |-> ag, frame |-> e.frame,
-                                                                             rollup |-> e.rollup]} ELSE sn
+                                                                             rollups |-> e.rollups]} ELSE sn
             [] e.ev = "agg"    -> /\ Clause(e, "c19_total", e.exc = "")
-                                  /\ aggd' = ((IF e.first THEN FALSE ELSE aggd) \/ (e.exc = ""))
+                                  /\ aggd' = (IF e.first THEN {} ELSE aggd) \cup (IF e.exc = "" THEN {e.name} ELSE {})
                                   /\ seen' = IF e.first THEN {} ELSE seen
             [] e.ev = "cfsafe" -> /\ Clause(e, "c19_cfsafe", e.exc = "" /\ SafeOf(e.out, e.raw))
                                   /\ UNCHANGED <<aggd, seen>>
